@@ -53,6 +53,7 @@ CONSTANTS NV,        \* variables 1..NV
           Kinds,     \* gen: statement kinds offered
           HSh,       \* gen: handler class lists offered for try
           AsVars,    \* gen: TRUE: `as` targets (except / with) are offered
+          Pre,       \* gen: the program that growth starts from
           MaxWord,   \* run: number of free choices per path
           Dump       \* publish
 
@@ -164,7 +165,8 @@ AddTry        == "try" \in Kinds /\ \E hc \in HSh, asv \in AsSet, fin \in BOOLEA
                     /\ hc # <<>> \/ fin
                     /\ asv # 0 => hc # <<>> /\ asv \notin VarsOf(prog, "cread")
                     /\ Nest([Base("try", 0) EXCEPT !.g = fin,
-                                !.hs = [i \in 1..Len(hc) |-> [c |-> hc[i], v |-> IF i = 1 THEN asv ELSE 0, a |-> <<>>]]])
+                                !.hs = [i \in 1..Len(hc) |-> [c |-> hc[i], v |-> IF i = 1 THEN asv ELSE 0, a |-> <<>>,
+                                                               fx |-> [c |-> 1]]]])
 \* an assignment in dead code (after return / break / continue / raise): the name is still a local
 AddDead       == "dead" \in Kinds /\ Room
                  /\ \E h \in Slots(prog, 0, FALSE) : h.dead /\ \E v \in Vars : prog' = Put(prog, h.path, Base("asg", v))
@@ -174,7 +176,9 @@ NextGen == \/ AddAssign \/ AddDel \/ AddRead \/ AddClosureRead \/ AddWalrus \/ A
            \/ AddMaybeRaise \/ AddRaise \/ AddReturn \/ AddBreak \/ AddContinue
            \/ AddIf \/ AddWhile \/ AddFor \/ AddWith \/ AddMatch \/ AddTry \/ AddDead
 
-InitGen == prog = <<>> /\ m = NoMachine
+PreNone == <<>>
+PreAsg  == <<Base("asg", 1)>>       \* variable 1 is bound when the interesting part starts
+InitGen == prog = Pre /\ m = NoMachine
 
 ---------------------------------------------------------------------------
 (* well-formedness of programs (gen: invariant; run: checked on the programs read from the file) *)
@@ -218,7 +222,7 @@ HIdx(c, hs) == LET ok == {j \in 1..Len(hs) : Matches(c, hs[j].c)}
 
 InitM(pid) == [pid |-> pid, ctl |-> <<SeqFr(Progs[pid].prog)>>, sig |-> Norm,
                bnd |-> [v \in Vars |-> 0], log |-> <<>>, word |-> <<>>, out |-> "",
-               fv |-> {}, tries |-> 0, fins |-> 0, nas |-> 0,
+               fv |-> <<>>, nre |-> 0, tries |-> 0, fins |-> 0, nas |-> 0,
                why |-> [v \in Vars |-> 1], wat |-> [v \in Vars |-> 0], bset |-> {}]
 
 InitRun == \E pid \in 1..Len(Progs) : prog = Progs[pid].prog /\ m = InitM(pid)
@@ -246,20 +250,25 @@ FinCtx(ctl) == IF ctl = <<>> THEN "c"
                ELSE FinCtx(SubSeq(ctl, 1, Len(ctl) - 1)) \o
                     (IF ctl[Len(ctl)].f = "fin" THEN (IF ctl[Len(ctl)].pend.t = "exc" THEN "x" ELSE "n") ELSE "")
 FactAt(x, s) == LET cx == FinCtx(x.ctl) IN IF cx \in DOMAIN s.fx THEN s.fx[cx] ELSE 1      \* no fact: no claim
-\* fact verdicts: a use of v at statement s that finds v unbound although the compiler says it cannot be
-\* (not maybe_null), or bound although the compiler says it is never bound there (is_null)
-Fact(x, s, unbound) ==
-  [x EXCEPT !.fv = @ \cup (IF unbound /\ FactAt(x, s) = 0 THEN {<<s.id, "mn", FinCtx(x.ctl)>>} ELSE {})
-                     \cup (IF ~unbound /\ FactAt(x, s) = 2 THEN {<<s.id, "isn", FinCtx(x.ctl)>>} ELSE {})]
+\* fact verdicts: a use OR (re)binding of v at statement s (id: the statement, or try id * 100 + j for the `as`
+\* name of handler j; fx: its facts) that finds v unbound although the compiler says it cannot be (not maybe_null:
+\* the generated code reads / DECREFs the old value without a NULL test), or bound although the compiler says it is
+\* never bound there (is_null).  Kept in execution order with the number of log entries the run time had produced.
+FactCode(x, fx) == LET cx == FinCtx(x.ctl) IN IF cx \in DOMAIN fx THEN fx[cx] ELSE 1
+Verdict(x, id, fx, unbound) ==
+  [x EXCEPT !.fv = @ \o (IF unbound /\ FactCode(x, fx) = 0 THEN <<<<id, "mn", FinCtx(x.ctl), x.nre>>>> ELSE <<>>)
+                     \o (IF ~unbound /\ FactCode(x, fx) = 2 THEN <<<<id, "isn", FinCtx(x.ctl), x.nre>>>> ELSE <<>>)]
+Fact(x, s, unbound) == Verdict(x, s.id, s.fx, unbound)
 
 \* ghost: why[v] says how v came to be unbound (1 never bound, 2 del statement, 3 end of an `except .. as v`
 \* handler), bset the binding statements executed so far, wat[v] which statement did it (the del statement / the try statement); a failed use is logged as
 \* <<id, -why, wat, fact>>, a successful one as <<id, value, 0, fact>> (fact = the compiler's flags for this use in
 \* the current context, 1 for events that are not uses)
-Bind(x, v, val)     == [x EXCEPT !.bnd[v] = val, !.why[v] = 0, !.wat[v] = 0, !.bset = @ \cup {val}]
+BindRaw(x, v, val)  == [x EXCEPT !.bnd[v] = val, !.why[v] = 0, !.wat[v] = 0, !.bset = @ \cup {val}]
+Bind(x, s, v, val)  == BindRaw(Fact(x, s, x.bnd[v] = 0), v, val)       \* binding by statement s, with its fact verdict
 Unbind(x, v, w, at) == [x EXCEPT !.bnd[v] = 0, !.why[v] = w, !.wat[v] = at]
-Ev(x, id, val)      == [x EXCEPT !.log = Append(@, <<id, val, 0, 1>>)]
-EvUse(x, s, val)    == [x EXCEPT !.log = Append(@, <<s.id, val, 0, FactAt(x, s)>>)]
+Ev(x, id, val)      == [x EXCEPT !.log = Append(@, <<id, val, 0, 1>>), !.nre = @ + 1]
+EvUse(x, s, val)    == [x EXCEPT !.log = Append(@, <<s.id, val, 0, FactAt(x, s)>>), !.nre = @ + 1]
 EvFail(x, s, v)     == [x EXCEPT !.log = Append(@, <<s.id, 0 - x.why[v], x.wat[v], FactAt(x, s)>>)]
 Sig(x, s)        == [x EXCEPT !.sig = s]
 
@@ -269,7 +278,7 @@ Use(x, s, v) == IF x.bnd[v] = 0 THEN Sig(EvFail(Fact(x, s, TRUE), s, v), Exc("U"
 
 Go(x) == prog' = prog /\ m' = x
 
-Assign      == AtStmt /\ Cur.t = "asg" /\ Go(Bind(Adv, Cur.v, Cur.id))
+Assign      == AtStmt /\ Cur.t = "asg" /\ Go(Bind(Adv, Cur, Cur.v, Cur.id))
 Delete      == AtStmt /\ Cur.t = "del" /\
                Go(IF Adv.bnd[Cur.v] = 0 THEN Use(Adv, Cur, Cur.v)
                   ELSE EvUse(Unbind(Fact(Adv, Cur, FALSE), Cur.v, 2, Cur.id), Cur, 0))
@@ -278,7 +287,7 @@ ClosureRead == AtStmt /\ Cur.t = "cread" /\
                Go(IF Adv.bnd[Cur.v] = 0 THEN Sig(EvFail(Fact(Adv, Cur, TRUE), Cur, Cur.v), Exc("N"))
                   ELSE EvUse(Fact(Adv, Cur, FALSE), Cur, Adv.bnd[Cur.v]))
 Walrus      == AtStmt /\ Cur.t = "wal" /\ \E c \in Ch :
-               Go(IF c = 1 THEN Bind(Take(Adv, c), Cur.v, Cur.id) ELSE Take(Adv, c))
+               Go(IF c = 1 THEN Bind(Take(Adv, c), Cur, Cur.v, Cur.id) ELSE Take(Adv, c))
 CondRead    == AtStmt /\ Cur.t = "cex" /\ \E c \in Ch :
                Go(IF c = 1 THEN Use(Take(Adv, c), Cur, Cur.v) ELSE Take(Adv, c))
 MaybeRaise  == AtStmt /\ Cur.t = "mr" /\ \E c \in Ch :
@@ -294,12 +303,12 @@ EnterLoop   == AtStmt /\ Cur.t \in Loops /\ Go(PushF(Adv, Fr(Cur.t, Cur, <<>>, N
 EnterTry    == AtStmt /\ Cur.t = "try" /\
                Go(PushF(PushF([Adv EXCEPT !.tries = @ + (IF Cur.g THEN 1 ELSE 0)], Fr("try", Cur, <<>>, Norm, 0)), SeqFr(Cur.a)))
 EnterWith   == AtStmt /\ Cur.t = "with" /\
-               Go(PushF(PushF(IF Cur.v # 0 THEN Bind(Adv, Cur.v, Cur.id) ELSE Adv, Fr("with", Cur, <<>>, Norm, 0)), SeqFr(Cur.a)))
+               Go(PushF(PushF(IF Cur.v # 0 THEN Bind(Adv, Cur, Cur.v, Cur.id) ELSE Adv, Fr("with", Cur, <<>>, Norm, 0)), SeqFr(Cur.a)))
 EnterComp   == AtStmt /\ Cur.t = "comp" /\ Go(PushF(Adv, Fr("comp", Cur, <<>>, Norm, 0)))
 Default(x, s) == IF s.d THEN PushF(x, SeqFr(s.b)) ELSE x
 MatchSubject == AtStmt /\ Cur.t = "match" /\ \E c \in Ch :
                Go(IF c = 0 THEN Default(Take(Adv, c), Cur)
-                  ELSE LET x == Bind(Take(Adv, c), Cur.v, Cur.id)
+                  ELSE LET x == Bind(Take(Adv, c), Cur, Cur.v, Cur.id)
                        IN IF Cur.g THEN PushF(x, Fr("mg", Cur, <<>>, Norm, 0)) ELSE PushF(x, SeqFr(Cur.a)))
 MatchGuard  == Normal /\ Top.f = "mg" /\ \E c \in Ch :
                Go(IF c = 1 THEN PushF(PopF(Take(m, c)), SeqFr(Top.s.a)) ELSE Default(PopF(Take(m, c)), Top.s))
@@ -307,7 +316,7 @@ BlockEnd    == Normal /\ Top.f = "seq" /\ Top.r = <<>> /\ Go(PopF(m))
 LoopTest    == Normal /\ Top.f = "while" /\ \E c \in Ch :
                Go(IF c = 1 THEN PushF(Take(m, c), SeqFr(Top.s.a)) ELSE ReplF(Take(m, c), SeqFr(Top.s.b)))
 ForNext     == Normal /\ Top.f = "for" /\ \E c \in Ch :
-               Go(IF c = 1 THEN PushF(Bind(Take(m, c), Top.s.v, Top.s.id), SeqFr(Top.s.a))
+               Go(IF c = 1 THEN PushF(Bind(Take(m, c), Top.s, Top.s.v, Top.s.id), SeqFr(Top.s.a))
                   ELSE ReplF(Take(m, c), SeqFr(Top.s.b)))
 CompNext    == Normal /\ Top.f = "comp" /\ \E c \in Ch :
                Go(IF c = 0 THEN PopF(Take(m, c))
@@ -324,7 +333,9 @@ Handle      == Abrupt /\ Top.f = "try" /\ m.sig.t = "exc" /\ HIdx(m.sig.c, Top.s
                LET j == HIdx(m.sig.c, Top.s.hs)
                    h == Top.s.hs[j]
                    x == ReplF(Sig(m, Norm), Fr("hnd", Top.s, <<>>, Norm, j))
-                   y == IF h.v # 0 THEN Bind([x EXCEPT !.nas = @ + 1], h.v, ExcId(m.sig.c)) ELSE x
+                   y == IF h.v # 0 THEN BindRaw(Verdict([x EXCEPT !.nas = @ + 1], Top.s.id * 100 + j, h.fx, x.bnd[h.v] = 0),
+                                                h.v, ExcId(m.sig.c))
+                        ELSE x
                IN Go(PushF(Ev(y, Top.s.id * 100 + j, 0), SeqFr(h.a)))      \* handler entry mark
 TryAbrupt   == Abrupt /\ Top.f = "try" /\ ~(m.sig.t = "exc" /\ HIdx(m.sig.c, Top.s.hs) > 0) /\
                Go(ToFinally(m, Top.s, m.sig))
